@@ -133,3 +133,73 @@ func ZZ_C09_caps() {
 	nondet.Reach("C09.caps.all", nondet.And(len(res.PodsToCreate) == missing, missing >= 2))
 	nondet.Reach("C09.caps.delete-capped", nondet.And(len(res.PodsToDelete) == int(ds.Spec.Strategy.RollingUpdate.MaxUnavailable.IntVal), len(res.PodsToDelete) >= 1, len(res.PodsToDelete) < n-missing))
 }
+
+// ZZ_C09_percentTargets: "percentages resolve against the number of targeted nodes": N targeted
+// nodes, none with a pod, plus nodes that are listed but not targeted; slowStartAdditiveIncrease is a percentage,
+// maxParallelPodCreation an integer:
+// the sync plans exactly min(maxParallel, (1+floor(t/interval)) * ceil(pct*N/100), N) creations.
+func ZZ_C09_percentTargets() {
+	n := 10
+	switch nondet.String("nodes", "4", "10", "40") {
+	case "4":
+		n = 4
+	case "40":
+		n = 40
+	}
+	pct := 10
+	switch nondet.String("increase", "1%", "10%", "25%", "34%", "100%") {
+	case "1%":
+		pct = 1
+	case "25%":
+		pct = 25
+	case "34%":
+		pct = 34
+	case "100%":
+		pct = 100
+	}
+	ds := zzDaemonset(map[string]string{})
+	inc := intstr.FromString(strconv.Itoa(pct) + "%")
+	ds.Spec.Strategy.RollingUpdate.SlowStartAdditiveIncrease = &inc
+	maxPar := int32(60)
+	switch nondet.String("maxParallel", "1", "3", "7", "60") {
+	case "1":
+		maxPar = 1
+	case "3":
+		maxPar = 3
+	case "7":
+		maxPar = 7
+	}
+	ds.Spec.Strategy.RollingUpdate.MaxParallelPodCreation = &maxPar
+	ds.Spec.Strategy.RollingUpdate.SlowStartIntervalDuration = &metav1.Duration{Duration: time.Minute}
+	rs := zzReplicaSet()
+	steps := zzConcSmall(nondet.Int("elapsedIntervals", 0, 3), 3)
+	activeSince := nondet.Base().Add(-time.Duration(steps)*time.Minute - 10*time.Second)
+	rs.Status.Conditions = []datadoghqv1alpha1.ExtendedDaemonSetReplicaSetCondition{{
+		Type: datadoghqv1alpha1.ConditionTypeActive, Status: corev1.ConditionTrue,
+		LastTransitionTime: metav1.NewTime(activeSince), LastUpdateTime: metav1.NewTime(activeSince),
+	}}
+	cats := make([]int, n)
+	for i := range cats {
+		cats[i] = zzNoPod
+	}
+	params, _ := zzParams(ds, rs, cats)
+	zzAddUntargetedNodes(params, nondet.String("untargetedNodes", "0", "1", "30"))
+	res, err := ManageDeployment(fakeapi.New(), ds, params, metav1.NewTime(nondet.Base()))
+	nondet.Assert("C09.pct.noerror", err == nil)
+	if err != nil {
+		return
+	}
+	perStep := (pct*n + 99) / 100
+	want := (1 + steps) * perStep
+	if int(maxPar) < want {
+		want = int(maxPar)
+	}
+	if want > n {
+		want = n
+	}
+	nondet.Assert("C09.pct.create-bound", len(res.PodsToCreate) <= want)
+	nondet.Assert("C09.pct.create-exact", len(res.PodsToCreate) == want)
+	nondet.Observe("nCreate", len(res.PodsToCreate))
+	nondet.Reach("C09.pct.ramp-limited", (1+steps)*perStep < n && (1+steps)*perStep < int(maxPar))
+	nondet.Reach("C09.pct.parallel-limited", int(maxPar) < (1+steps)*perStep && int(maxPar) < n)
+}
